@@ -22,6 +22,8 @@ PROPS = {
         trusted=[L2_BASE, "library contracts of pyvc/lib.py used by the selection code (nanmax, argmax, choice, scatter/gather, np.sum as CNT)",
                  "[A-score] the score expression of a strategy yields len(X_cand) non-NaN numbers (checked at run time by the bounded stand-in)"],
         assumptions=["index candidates are non-negative (check_indices checks the upper bound only)",
+                     "bounded stand-in: labeled samples are offered as index candidates to the strategies that score sample-wise and to the strategies with a "
+                     "recorded finding about them (CoreSet, Quire, Badge, TypiClust, RegressionTreeBasedAL); the other strategies see unlabeled index candidates only",
                      "strategies with their own sequential selection loops are covered by the bounded stand-in only (listed in the evidence)"],
         explanation="simple_batch/rand_argmax proved for all arrays; the epilogue of every simple-epilogue strategy proved to hand simple_batch an "
                     "array that is NaN exactly off the candidates together with the clipped batch size; every exported strategy swept at run time"),
